@@ -63,8 +63,8 @@ class C12(Check):
         "container files embed the schema text they were given: headers are compared through canonical form, codec and metadata, blocks byte for byte",
         "JSON operations are skipped for schemas in the C15 known-finding classes",
     ]
-    required_labels = ["piecewise", "piecewise:top-is-record", "ops:json", "ops:container", "ops:generate", "idempotent", "s:recursive"]
-    quick = (600, 1)
+    required_labels = ["piecewise", "piecewise:top-is-record", "ops:json", "ops:container", "ops:generate", "ops:json-defaults", "idempotent", "s:recursive"]
+    quick = (1500, 1)
     thorough = (4000, 16)
 
     def __init__(self):
@@ -82,6 +82,8 @@ class C12(Check):
             d = gen.D(draw)
             if d.p(0.2):
                 return self.overlap_case(d)
+            if d.p(0.1):
+                return self.defaults_case(d)
             ir, table, js = gen.build_schema(d, feat)
             gen.check_truth(ir, table, js)
             dg = gen.DataGen(d, feat, table)
@@ -98,6 +100,40 @@ class C12(Check):
             return case
 
         return cases()
+
+    def defaults_case(self, d):
+        """The same separately parsed types referred to by name several times with different field defaults."""
+        E = {"type": "enum", "name": "dv.Colour", "symbols": ["RED", "GREEN", "BLUE"]}
+        P = {"type": "record", "name": "dv.Point", "fields": [{"name": "x", "type": "int"}, {"name": "y", "type": "int"}]}
+        F = {"type": "fixed", "name": "dv.Tag", "size": 2}
+        defs = {"dv.Colour": (E, ["RED", "GREEN", "BLUE"]), "dv.Point": (P, [{"x": 0, "y": 0}, {"x": 1, "y": 1}, {"x": -5, "y": 7}]), }
+        fields_inline, fields_ref = [], []
+        seen = set()
+        for j in range(d.rng(3, 6)):
+            tname = d.choice(list(defs))
+            tdef, choices = defs[tname]
+            dv = d.choice(choices)
+            wrap = d.choice(["plain", "plain", "nullable"])
+            def ty(t):
+                return t if wrap == "plain" else [t, "null"]
+            fi = {"name": f"f{j}", "type": ty(tdef if tname not in seen else tname), "default": dv}
+            fr = {"name": f"f{j}", "type": ty(tname), "default": dv}
+            seen.add(tname)
+            fields_inline.append(fi)
+            fields_ref.append(fr)
+        fields_inline.append({"name": "n", "type": "int"})
+        fields_ref.append({"name": "n", "type": "int"})
+        inline = {"type": "record", "name": "dv.Holder", "fields": fields_inline}
+        byname = {"type": "record", "name": "dv.Holder", "fields": fields_ref}
+        pieces = [defs[t][0] for t in defs if t in seen]
+        data = []
+        for _ in range(d.rng(1, 2)):
+            r = {"n": d.rng(0, 9)}
+            for f in fields_ref[:-1]:
+                if d.p(0.4):
+                    r[f["name"]] = f["default"]
+            data.append(r)
+        return {"schema": inline, "data": data, "bad": {"n": "x"}, "pieces": pieces, "remainder": byname, "gen_seed": d.rng(0, 100), "json_defaults": True}
 
     def overlap_case(self, d):
         """Union of records with overlapping optional fields, each record parsed as its own piece."""
@@ -286,6 +322,24 @@ class C12(Check):
 
             ops.append(("json_writer", j_write))
             ops.append(("json_reader", j_read))
+            top = case["schema"]
+            if isinstance(top, dict) and top.get("type") == "record" and any("default" in f for f in top["fields"]):
+                from .c15 import nested_union
+                droppable = [f["name"] for f, nf in zip(top["fields"], node["fields"]) if "default" in f and not nested_union(nf["type"], table, top=True)]
+                if droppable:
+                    try:
+                        so = io.StringIO()
+                        json_writer(so, copy.deepcopy(strip_markers(top)), data)
+                        objs = [json.loads(l) for l in so.getvalue().split("\n") if l]
+                    except Exception:
+                        objs = None  # the data do not conform (overlap family) or the JSON writer fails: covered by json_writer op
+                    if objs is not None:
+                        labels.add("ops:json-defaults")
+                        for o in objs:
+                            for nme in droppable:
+                                o.pop(nme, None)
+                        text_nd = "\n".join(json.dumps(o) for o in objs)
+                        ops.append(("json_reader-absent-defaulted-keys", lambda schema: list(json_reader(io.StringIO(text_nd), schema))))
         labels.add("ops:generate")
 
         def gen_many(schema):
